@@ -246,6 +246,21 @@ def run(ctx):
     if model_ok and rows:
         T.evaluate(ctx, rows, case_term, "From SX Require Import Base.Bytes Model.IPNet Model.Targets Spec.C13 Spec.C01.",
                    16 if quick else 64, describe, CODES)
+    # the probes of a pass through the REAL packet engine (N workers, merger, sender with buffer pool): every frame built
+    # is written once, intact (the engine side of C01Wire.v)
+    from checks import c07
+    if ctx.harness_build("c07"):
+        for o in c07.run_harness(ctx, 10 if quick else 100, ctx.seed + 29, name="engine.jsonl", maxreq=600):
+            reqs = o["reqs"] or []
+            ctx.count("engine:" + o["class"], ("engine", o["n"], o["cap"], json.dumps(reqs)), nontrivial=len(reqs) >= 5,
+                      sample={"workers": o["n"], "requests": len(reqs)})
+            why = c07.spec_on_impl(o)
+            if why and not any(f["key"].startswith("engine:") for f in ctx.findings):
+                why = "packet engine, %d workers, %d requests: %s" % (o["n"], len(reqs), why)
+                path = ctx.write_replay("engine-case%d" % o["case"], {"property": "C01", "what": why, "input": {
+                    "n": o["n"], "cap": o["cap"], "reqs": reqs, "harness": "c07 -seed %d -n %d -maxreq 600 -only %d" % (
+                        ctx.seed + 29, 10 if quick else 100, o["case"])}})
+                ctx.findings.append({"key": "engine:" + why.split(":")[1][:40], "what": why, "replay": path})
     return ctx.finish(rule=RULE)
 
 
